@@ -70,9 +70,44 @@ API_FORCED = [
 ]
 
 
+# defect `coll-ub` (D24): FixedKeyDictNodeEdit's static upper bound from.total_size + to.total_size + 1 is exceeded by
+# its sub-edits when short scalars face nulls (LeafNode.edits(NullNode) costs lev(str(x), "None"), a null has size 0)
+COLLUB_OPTS = {"allow_key_edits": False, "auto_match_keys": False, "allow_list_edits": False}
+COLLUB_FORCED = [
+    ({"k": [""] * 5}, {"k": [None] * 5}),
+    ({"k": [1] * 10}, {"k": [None] * 10}),
+]
+
+
+def nw(x):
+    """null leaves reachable through lists only"""
+    if x is None:
+        return 1
+    if isinstance(x, list):
+        return sum(nw(c) for c in x)
+    return 0
+
+
+def outside_fk_domain(case):
+    """JSON cases: fixed-key dictionaries are in use and some value v under key k of the to-document has
+    3 * nw(v) > 2 * len(k) + 5 (the Lean domain predicate `Tree.fkOK` fails: see NOTES_C04, defect `coll-ub`)"""
+    if case.get("api") or case.get("opts", {}).get("allow_key_edits", True):
+        return False
+
+    def bad(x):
+        if isinstance(x, dict):
+            return any(3 * nw(v) > 2 * len(k) + 5 or bad(v) for k, v in x.items())
+        if isinstance(x, list):
+            return any(bad(c) for c in x)
+        return False
+    return bad(case["t"])
+
+
 def gen(rng, tier):
     n = 900 if tier == "quick" else 60000
     cases = []
+    for i, (f, t) in enumerate(COLLUB_FORCED):
+        cases.append({"f": f, "t": t, "opts": COLLUB_OPTS, "mode": MODES[i % len(MODES)], "quiet": True})
     for i, (f, t) in enumerate(S.FORCED):
         for j, o in enumerate(S.OPT_SETS if tier != "quick" else [S.OPT_SETS[(i + k) % len(S.OPT_SETS)] for k in (0, 1)]):
             cases.append({"f": f, "t": t, "opts": o, "mode": MODES[(i + j) % len(MODES)], "quiet": (i + j) % 3 != 0})
@@ -417,6 +452,8 @@ def _root_checks(ops, hits, cls):
 def monitor(case, obs):
     out = []
     dup = "dup-multiset:" if case.get("api") and (has_dup_mset(case["f"]) or has_dup_mset(case["t"])) else ""
+    if outside_fk_domain(case):
+        dup = "coll-ub:"
 
     def hit(key, what):
         out.append({"prop": "C04", "key": dup + key, "what": what})
